@@ -33,8 +33,8 @@ pub fn run(ctx: &Ctx) {
         }
     };
     // calldata of every length
-    let maxlen = 1100u64;
-    ctx.sweep("calldata-lengths", "calldata of every length 0..=1100 x 3 kinds (string and enclosing-list headers cross 55/56 and 255/256)", (maxlen + 1) * 3, |i| {
+    let maxlen = if ctx.quick() { 1100u64 } else { 6000 };
+    ctx.sweep("calldata-lengths", "calldata of every length 0..=1100 (thorough: 0..=6000) x 3 kinds (string and enclosing-list headers cross 55/56 and 255/256)", (maxlen + 1) * 3, |i| {
         let (k, name) = kinds()[(i % 3) as usize]; let len = (i / 3) as usize; let mut tx = txjson::template(k, true);
         tx.data = filler_bytes(ctx.seed, 0xC07 + len as u64, len); if len > 0 && tx.data[0] == 0 { tx.data[0] = 1; }
         one("calldata-lengths", i, format!("{name},calldata-len-class={}", match len { 0 => "0", 1 => "1", 2..=55 => "short", 56..=255 => "long1", _ => "long2" }), &tx, &sigs()[(i % 5) as usize]);
@@ -44,12 +44,12 @@ pub fn run(ctx: &Ctx) {
         one("calldata-single-byte", i, format!("{name},single-byte-{}", if b < 0x80 { "below-0x80" } else { "from-0x80" }), &tx, &sigs()[0]);
     });
     // every numeric field at every byte width with leading byte 01/7f/80/ff
-    let fields = ["nonce", "gasPrice", "gas", "value", "chainId", "maxPriorityFeePerGas", "maxFeePerGas"]; let leads = [0x01u8, 0x7f, 0x80, 0xff];
+    let fields = ["nonce", "gasPrice", "gas", "value", "chainId", "maxPriorityFeePerGas", "maxFeePerGas"]; let leads: Vec<u8> = if ctx.quick() { vec![0x01, 0x7f, 0x80, 0xff] } else { (1..=255u8).collect() };
     let mut wcases: Vec<(usize, usize, usize, u8, bool)> = Vec::new();
     for (ki, (k, _)) in kinds().iter().enumerate() { for (fi, f) in fields.iter().enumerate() {
         if (*k != Kind::Eip1559 && fi >= 5) || (*k == Kind::Eip1559 && fi == 1) { continue; }
-        for w in 1..=32usize { for l in leads { for tail_ff in [false, true] { if *f == "chainId" && *k == Kind::Legacy && w == 32 && l >= 0x7f { continue; } wcases.push((ki, fi, w, l, tail_ff)); } } } } }
-    ctx.sweep("integer-widths", "every numeric field of every kind at every byte width 1..=32 with leading byte 01/7f/80/ff and an all-zero or all-ff tail (legacy chain ids kept within the range where v fits 256 bits)", wcases.len() as u64, |i| {
+        for w in 1..=32usize { for l in leads.iter().copied() { for tail_ff in [false, true] { if *f == "chainId" && *k == Kind::Legacy && w == 32 && l >= 0x7f { continue; } wcases.push((ki, fi, w, l, tail_ff)); } } } } }
+    ctx.sweep("integer-widths", "every numeric field of every kind at every byte width 1..=32 with leading byte 01/7f/80/ff (thorough: every leading byte 01..ff) and an all-zero or all-ff tail (legacy chain ids kept within the range where v fits 256 bits)", wcases.len() as u64, |i| {
         let (ki, fi, w, l, tail_ff) = wcases[i as usize]; let (k, name) = kinds()[ki]; let mut tx = txjson::template(k, true);
         let mut b = vec![if tail_ff { 0xffu8 } else { 0 }; w]; b[0] = l; let v = Nat::from_be_bytes(&b);
         match fields[fi] { "nonce" => tx.nonce = v, "gasPrice" => tx.gas_price = v, "gas" => tx.gas = v, "value" => tx.value = v, "chainId" => tx.chain_id = Some(v), "maxPriorityFeePerGas" => tx.max_priority = v, _ => tx.max_fee = v }
